@@ -120,6 +120,7 @@ func genPrune(r *rng) string {
 func init() {
 	streams["displace"] = &stream{gen: genDisplace, run: runPair}
 	streams["reorder"] = &stream{gen: func(r *rng) string { return genReorderChain(r).encode() }, run: runChain}
+	streams["reorderwrap"] = &stream{gen: func(r *rng) string { return genReorderWrapChain(r).encode() }, run: runChain}
 }
 
 // genReorderChain: ordinary chains with Reorder sprinkled on injectors (and sometimes wrappers)
@@ -131,6 +132,27 @@ func genReorderChain(r *rng) *ccase {
 		}
 		if r.chance(1, 4) && (p.shape == 2 || r.chance(1, 3)) {
 			p.annots |= aReorder
+		}
+	}
+	for _, p := range c.provs {
+		p.cluster = 0
+	}
+	return c
+}
+
+// chains without static providers in which most wrappers and fallible injectors are Reorder'd and
+// Required: the topological sort is free to place them around the invoke function
+func genReorderWrapChain(r *rng) *ccase {
+	c := genChain(r, chainOpts{noStatic: true, moreWrap: true, moreFall: r.chance(1, 2)})
+	for i, p := range c.provs {
+		if i == len(c.provs)-1 || p.shape == 1 {
+			continue
+		}
+		if r.chance(3, 4) {
+			p.annots |= aReorder
+			if r.chance(2, 3) {
+				p.annots |= aRequired
+			}
 		}
 	}
 	for _, p := range c.provs {
@@ -156,7 +178,9 @@ func genDisplace(r *rng) string {
 		// candidates: plain injectors (no TerminalError), not last
 		var cands []int
 		for i, p := range c.provs[:len(c.provs)-1] {
-			if p.shape == 2 && !containsInt(p.outs, tcOf(pTerminal)) && p.annots&(aCacheable|aMustCache|aMemoize|aSingleton) == 0 {
+			// the displaced injector may be Cacheable (static in the base chain, per invocation once
+			// it is marked Reorder); MustCache / Memoize / Singleton contradict Reorder
+			if p.shape == 2 && !containsInt(p.outs, tcOf(pTerminal)) && p.annots&(aMustCache|aMemoize|aSingleton) == 0 {
 				cands = append(cands, i)
 			}
 		}
